@@ -118,3 +118,127 @@ def teleport(state, action, rng):
     ensures('frame', lambda: state.agent.orientation is o0 and same(state.grid, g0)
             and same(state.agent.grid_object, hand))
     ensures('draws-only-on-pod', lambda: draws(rng) == (1 if has_partner else 0))
+
+
+# ------------------------------------------------------------------ move_obstacles
+def fo(o):
+    """floor or moving obstacle: the only cell contents move_obstacles may touch"""
+    return isinstance(o, Floor) or isinstance(o, MovingObstacle)
+
+
+def mo_inv(k, n, item, pre, state):
+    g = state.grid
+    g0 = pre.state.grid
+    return (g.shape == g0.shape
+            # scenery never moves; floor/obstacle cells stay floor/obstacle cells
+            and forall_cells(g, lambda c: (same(g[c], g0[c]) if not fo(g0[c]) else fo(g[c])))
+            # obstacles whose turn has not come are still where they were collected
+            and forall_int(k, n, lambda j: in_grid(g, item(j)) and isinstance(g[item(j)], MovingObstacle))
+            and forall_int(0, n, lambda j: in_grid(g0, item(j)) and isinstance(g0[item(j)], MovingObstacle))
+            # an obstacle is found only where one was, or on a former floor cell next to a former obstacle
+            and forall_cells(g, lambda c: implies(isinstance(g[c], MovingObstacle), lambda: near_obstacle(g0, c))))
+
+
+def near_obstacle(g0, c):
+    def was_obstacle(q):
+        return in_grid(g0, q) and isinstance(g0[q], MovingObstacle)
+    return isinstance(g0[c], MovingObstacle) or (isinstance(g0[c], Floor) and (
+        was_obstacle(padd(c, unit(F))) or was_obstacle(padd(c, unit(R)))
+        or was_obstacle(padd(c, unit(B))) or was_obstacle(padd(c, unit(L)))))
+
+
+def count_cells(grid, pred):
+    return sum(1 for p in grid.area.positions() if pred(grid[p]))
+
+
+def mo_step_rule(before, state, position, next_positions):
+    """at its turn an obstacle moves to a 4-neighbour that was floor, or stays iff it has none"""
+    g = state.grid
+    b = before.state.grid
+    def free(q):
+        return in_grid(b, q) and isinstance(b[q], Floor)
+    def swapped_with(q):
+        return free(q) and forall_cells(g, lambda c: same(g[c], b[q] if c == position else (b[position] if c == q else b[c])))
+    n1 = padd(position, unit(F))
+    n2 = padd(position, unit(R))
+    n3 = padd(position, unit(B))
+    n4 = padd(position, unit(L))
+    none_free = not free(n1) and not free(n2) and not free(n3) and not free(n4)
+    return (same(g, b) and none_free) or swapped_with(n1) or swapped_with(n2) or swapped_with(n3) or swapped_with(n4)
+
+
+def mo_step_support(before, state, position, next_positions):
+    """every free neighbour is a possible destination: it is next_positions[i] for an i the
+    generator may return (rng.choice(n) is any 0 <= i < n)"""
+    b = before.state.grid
+    def free(q):
+        return in_grid(b, q) and isinstance(b[q], Floor)
+    def cnt(q):
+        return 1 if free(q) else 0
+    def listed(q, i):
+        # explicit witness: the number of free neighbours listed before q (boundary order F, R, B, L)
+        return implies(free(q), lambda: 0 <= i and i < len(next_positions) and next_positions[i] == q)
+    n1 = padd(position, unit(F))
+    n2 = padd(position, unit(R))
+    n3 = padd(position, unit(B))
+    n4 = padd(position, unit(L))
+    return (listed(n1, 0) and listed(n2, cnt(n1)) and listed(n3, cnt(n1) + cnt(n2))
+            and listed(n4, cnt(n1) + cnt(n2) + cnt(n3)))
+
+
+def mo_step_draw(before, state, rng, next_positions):
+    return True
+
+
+loop_invariant(target=T + 'move_obstacles', loop=0, kind='indexed', modifies=['state'],
+               step={'rule': mo_step_rule, 'every-free-neighbour-possible': mo_step_support})(mo_inv)
+
+
+@contract(target=T + 'move_obstacles', args=SAR, kwonly=['rng'], props=['C01', 'C03', 'C08', 'C09', 'C10', 'C11'])
+def move_obstacles(state, action, rng):
+    s0 = old(state)
+    g0 = s0.grid
+    ensures('total', lambda: returned())
+    ensures('shape', lambda: state.grid.shape == g0.shape)
+    ensures('scenery-never-moves', lambda: forall_cells(state.grid, lambda c: implies(
+        not fo(g0[c]), lambda: same(state.grid[c], g0[c]))))
+    ensures('only-floor-and-obstacles-trade-places', lambda: forall_cells(state.grid, lambda c: implies(
+        fo(g0[c]), lambda: fo(state.grid[c]))))
+    ensures('agent-untouched', lambda: state.agent.position == s0.agent.position
+            and state.agent.orientation is s0.agent.orientation and same(state.agent.grid_object, s0.agent.grid_object))
+    ensures('obstacles-move-at-most-one-step-onto-floor', lambda: forall_cells(state.grid, lambda c: implies(
+        isinstance(state.grid[c], MovingObstacle), lambda: near_obstacle(g0, c))))
+    ensures_native('no-obstacle-lost-or-duplicated', lambda: count_cells(state.grid, lambda o: isinstance(o, MovingObstacle))
+                   == count_cells(g0, lambda o: isinstance(o, MovingObstacle)))
+
+
+# ------------------------------------------------------------------ chain / transition_with_copy
+FN3 = ('list', ('fn', 'None'), 3)
+FC = 'gym_gridverse.utils.fast_copy:fast_copy'
+
+
+@contract(target=T + 'chain', args={'state': 'State', 'action': 'Action', 'transition_functions': FN3, 'rng': 'Rng'},
+          kwonly=['transition_functions', 'rng'], props=['C01', 'C02', 'C03', 'C09'])
+def chain(state, action, transition_functions, rng):
+    tfs = transition_functions
+    ensures('total', lambda: returned())
+    ensures('each-part-once-in-order-with-the-same-arguments', lambda: forall_int(0, 3, lambda i: (
+        ghost_calls(tfs[i]) == 1 and ghost_arg(tfs[i], 0, 0) is state and ghost_arg(tfs[i], 0, 1) is action
+        and ghost_kwarg(tfs[i], 0, 'rng') is rng))
+        and ghost_seq(tfs[0], 0) < ghost_seq(tfs[1], 0) and ghost_seq(tfs[1], 0) < ghost_seq(tfs[2], 0))
+    ensures('no-own-draw', lambda: draws(rng) == 0)
+
+
+@contract(target=T + 'transition_with_copy',
+          args={'transition_function': ('fn', 'None'), 'state': 'State', 'action': 'Action', 'rng': 'Rng'},
+          kwonly=['rng'], stubs={FC: 'State'}, props=['C01', 'C02', 'C03'])
+def transition_with_copy(transition_function, state, action, rng):
+    s0 = old(state)
+    tf = transition_function
+    ensures('total', lambda: returned())
+    ensures('copies-first', lambda: ghost_calls(FC) == 1 and ghost_arg(FC, 0, 0) is state)
+    ensures('transition-runs-on-the-copy', lambda: ghost_calls(tf) == 1 and ghost_arg(tf, 0, 0) is ghost_result(FC, 0)
+            and ghost_arg(tf, 0, 0) is not state and ghost_arg(tf, 0, 1) is action and ghost_kwarg(tf, 0, 'rng') is rng
+            and ghost_seq(FC, 0) < ghost_seq(tf, 0))
+    ensures('returns-the-copy', lambda: result() is ghost_result(FC, 0))
+    ensures('input-state-untouched', lambda: same(state, s0))
